@@ -65,6 +65,7 @@ impl Property for P {
                     symlink: false,
                     bg_cleanup: false,
                     via_logger: via_logger && !utc,
+                    build_variant: 0,
                 };
                 let le = cfg.line_ending().len();
                 let ops = crate::hist::ops_strat_f(crit.size(), mode.buffer_cap(), le, true, 40, !mode.is_async());
